@@ -22,6 +22,12 @@ CHECKS = {
  "C08": dict(category="model_checking", technique="explicit-state search, differential against a canonical store and independent recomputation of counts/items",
    text="Every history up to depth 3-5 over set, explicit-revision set, same-value set, delete, restart with/without tree dump and every accepted GC range, on keys in one leaf / sibling leaf / other bucket, on filler populations straddling the list-keys threshold (seam set to 4; 256 default) and the C-search threshold (100); in every state the listing of every prefix of length 0..16 (via 'get @prefix') is recomputed independently (kind, counts, item sets, tombstone lines) from the content the store reports and compared with a canonical store built by inserting the same content once in sorted order (history independence, node lines exact). Plus all eight depth+height classes of the truncated leaf key hash directly on the leaf code.",
    note="Node-hash formulas are not pinned (only history independence, counts, items). depth+height <= 5 for whole-tree exploration (memory), all 8 classes at leaf level.", design="4/C08"),
+ "C06": dict(category="fault_enumeration", technique="exhaustive crash-point enumeration: every prefix of the file-system mutation log + torn writes, recovered in a fresh process",
+   text="Every history up to depth 5 (thorough 6) over writes, deletes, forced flush, background flush after rotation, hint dump and Close, on a store with 2-block data files, 2-item hint splits and a 256-byte bufio; for each history every prefix of the memfs mutation log and torn variants of every write (each 256-byte boundary, unaligned cuts, every byte of the small in-place files) is materialised; each distinct crash state is recovered in a fresh process and every key read. The verdict is computed on the crash state itself with an independent record decoder: serve the last complete record of the key or a later write of it, or refuse to start only when a data file has a torn tail.",
+   note="SIGKILL model (completed calls persist, no reordering). An explicit error for a key with no durable live record is tolerated. Two genuine defects found here were repaired (fix: commits 037ef1f, aab28cb).", design="4/C06"),
+ "C07": dict(category="fault_enumeration", technique="exhaustive crash-point enumeration inside GC passes over all small layouts and ranges",
+   text="Every layout up to L letters in two GC configurations (in-place rewrite; append to an earlier short file then overflow), all data flushed, then every range the range check resolves x merge off/on with the mutation log on: every prefix of the pass's mutations and torn variants of each write is applied to the pre-GC directory and recovered; every key must read exactly its pre-GC reference-map entry.",
+   note="SIGKILL model; no client writes during the pass. The in-place stale-tail defect found here was repaired (fix: commit 6923fbe).", design="4/C07"),
 }
 
 NOT_APPLICABLE = []
